@@ -1207,7 +1207,13 @@ where
         // within the frame carrying the performative MUST be ignored). An aborted
         // message is implicitly settled
         if transfer.aborted {
-            let _ = self.incomplete_transfer.take();
+            if let Some(incomplete) = self.incomplete_transfer.take() {
+                // The partial frames were recorded in the unsettled map; being implicitly
+                // settled, the aborted delivery must not be reported as unsettled any more
+                if let Some(delivery_tag) = incomplete.performative.delivery_tag.as_ref() {
+                    self.link.on_aborted_transfer(delivery_tag);
+                }
+            }
             return Ok(None);
         }
 
